@@ -52,7 +52,11 @@ def safe_check(mod, pid, sc):
     input (expected rejections are handled inside the checks) is behaviour of the SUT and is reported as a violation;
     anything else propagates (harness error)."""
     try:
-        return mod.check(sc)
+        out = mod.check(sc)
+        for _ in range(int(sc.get("_repeat", 1)) - 1):
+            # the same scenario executed again in the same process: a difference means state leaked inside the library
+            out = mod.check(json.loads(json.dumps({k: v for k, v in sc.items() if k != "_repeat"})))
+        return out
     except Exception as exc:
         from .driver import classify_exception
         if classify_exception(exc) != "sut":
@@ -90,7 +94,15 @@ def _worker(args):
                 out2 = safe_check(mod, pid, json.loads(json.dumps(sc)))
                 agg["det_checked"] += 1
                 if out2.digest != out.digest or out2.tags() != out.tags():
-                    agg["det_mismatch"].append(idx)
+                    if out2.viol and not out.viol:
+                        # the harness is deterministic on the unchanged tree (selftest/determinism.sh): a scenario that passes
+                        # once and fails when executed again in the same process means the library kept state between two
+                        # uses. Reported as a violation of this property with a replay that executes the scenario twice.
+                        sc = dict(sc, _repeat=2)
+                        out = out2
+                        out.viol = [(t_, "(second execution of the same scenario in one process) " + d_) for t_, d_ in out2.viol]
+                    elif not out.viol:
+                        agg["det_mismatch"].append(idx)      # (a run that already violates is reported as such)
         except Exception:
             agg["harness"] = "run %d: %s" % (idx, traceback.format_exc())
             break
@@ -141,6 +153,35 @@ def shrink(mod, sc, tag, budget_runs=300, budget_s=45.0):
                 improved = True
                 break
     return cur, runs
+
+
+def _in_child(fn, timeout=180):
+    """Run fn() in a forked child of this (so far scenario-free) process and return its result, or None."""
+    ctx = mp.get_context("fork")
+    a, b = ctx.Pipe(duplex=False)
+
+    def run():
+        try:
+            b.send(fn())
+        except Exception:
+            b.send(None)
+        finally:
+            b.close()
+    p = ctx.Process(target=run)
+    p.start()
+    res = a.recv() if a.poll(timeout) else None
+    p.join(5)
+    if p.is_alive():
+        p.kill()
+    return res
+
+
+def isolated_tags(pid, sc):
+    """Oracle tags (and details, digest) of one scenario executed in a process that has executed nothing else."""
+    def fn():
+        out = safe_check(load_prop(pid), pid, json.loads(json.dumps(sc)))
+        return (out.viol, out.digest)
+    return _in_child(fn)
 
 
 def match_known(pid, mod, sc, tag, detail):
@@ -318,17 +359,51 @@ def main(argv=None):
     reported = 0
     known_lines = []
     tot["viols"].sort(key=lambda v: v[0])
+    # one report per oracle tag; among the runs showing a tag prefer the first one that reproduces here, in a process that
+    # has executed nothing else (a run that only fails after other scenarios ran in its worker is kept as a fallback)
+    by_tag = {}
+    for v in tot["viols"]:
+        by_tag.setdefault(v[2][0][0], []).append(v)
+    chosen = []
+    for tag, lst in by_tag.items():
+        pick = lst[0]
+        for cand in lst[:12]:
+            res = isolated_tags(pid, cand[1])
+            if res is not None and tag in [t for t, _ in res[0]]:
+                pick = cand
+                break
+        chosen.append(pick)
+    chosen.sort(key=lambda v: v[0])
     seen_tags = set()
-    for idx, sc, viol in tot["viols"]:
+    for idx, sc, viol in chosen:
         tag, detail = viol[0]
         if tag in seen_tags or len(seen_tags) >= 3:
             continue
         seen_tags.add(tag)
-        small, sruns = (sc, 0) if a.no_shrink else shrink(mod, sc, tag)
-        out = safe_check(mod, pid, json.loads(json.dumps(small)))
-        d = dict(out.viol).get(tag, detail)
+        # minimisation runs in a child too, so that this process never executes a scenario itself
+        if a.no_shrink:
+            small, sruns = sc, 0
+        else:
+            res = _in_child(lambda: shrink(load_prop(pid), sc, tag), timeout=240)
+            small, sruns = res if res is not None else (sc, 0)
+        res = isolated_tags(pid, small)
+        if res is None or tag not in [t for t, _ in res[0]]:
+            # the minimised scenario does not stand on its own: fall back to the scenario as found, then to the scenario
+            # executed twice in a row, then report it unreduced with a note (state kept inside the library between uses)
+            small, sruns = sc, 0
+            res = isolated_tags(pid, small)
+            if (res is None or tag not in [t for t, _ in res[0]]) and not sc.get("_repeat"):
+                rep = dict(sc, _repeat=2)
+                res2 = isolated_tags(pid, rep)
+                if res2 is not None and tag in [t for t, _ in res2[0]]:
+                    small, res = rep, res2
+                else:
+                    small = dict(sc, _note="violation observed in a worker process after other scenarios had run; not reproduced "
+                                           "in isolation: the library keeps state between uses (this replay may pass)")
+        viol_now, dig_now = res if res is not None else ([], "")
+        d = dict(viol_now).get(tag, detail)
         small = dict(small)
-        small["violation"] = {"oracle": tag, "detail": d, "event_log_digest": out.digest, "shrink_runs": sruns,
+        small["violation"] = {"oracle": tag, "detail": d, "event_log_digest": dig_now, "shrink_runs": sruns,
                               "original_run": idx}
         rdir = os.environ.get("VERIF_REPLAY_DIR") or os.path.join(VERIF, "replays")
         os.makedirs(rdir, exist_ok=True)
